@@ -27,3 +27,6 @@ func vSetMapOrder(k int) {}
 // vJSONInt renders x as a JSON number (the engine uses a sentinel literal
 // that stands for the symbolic value).
 func vJSONInt(x int64) string { return strconv.FormatInt(x, 10) }
+
+func vInf() float64 { return math.Inf(1) }
+func vNaN() float64 { return math.NaN() }
